@@ -7,8 +7,15 @@ package assets
 //   fsize     RLIMIT_FSIZE (SIGXFSZ ignored) — stand-in for a full file system       -> partial temporary write, then EFBIG
 //   occupied  the ClientConf path is a non-empty directory                           -> the final rename fails
 //
-// Oracle: the ClientConf file still parses and equals the configuration stored before; after a failed
-// SetClientConf the in-memory configuration equals the previous one. (The partial setters are not
+// Oracle: the ClientConf file still parses (as the client's own loader parses it: proto.Unmarshal incl.
+// the required-field check) and equals the configuration stored before; after a failed SetClientConf
+// the in-memory configuration equals the previous one. A store that reports success must leave the
+// file equal to the new configuration — except for an unserialisable replacement ("marshal"), for which
+// no loadable new file exists: if such a store is accepted the file must still be the previous one,
+// anything else is the violation "unserialisable-accepted". After the whole sequence the file must be
+// the last stored configuration ("final:*"). Only what cannot be judged stays harness trouble (exit 2):
+// the child misbehaving, a fault that could not be injected/lifted, a store failing in a healthy
+// directory while file and memory are fine. (The partial setters are not
 // required to roll back; what they leave in memory is taken as the new baseline.) Stray temporary
 // files are counted, not judged.
 
@@ -68,6 +75,7 @@ func c20CheckFault(t vh.Fataler, rec *vh.Rec, root string, c c20Case) {
 	maxStrays := 0
 	type viol struct{ key, msg string }
 	var v *viol
+	spurious := "" // a store that failed although no fault was injected
 
 	mem := c20Norm(c20Conf(-1, c.InitKB, false))
 	disk := mem
@@ -80,7 +88,9 @@ func c20CheckFault(t vh.Fataler, rec *vh.Rec, root string, c c20Case) {
 			t.Fatalf("harness problem: store %d (%v): %s", i, op, o.Harness)
 		}
 		if len(o.Others) > 0 {
-			t.Fatalf("harness problem: unexpected entries in the assets directory after store %d: %v", i, o.Others)
+			// the harness creates nothing inside the assets directory, so these come from the code under
+			// test (e.g. another temporary-file naming scheme); not judged, only recorded
+			classSet["other-entries-in-assets-dir"] = true
 		}
 		if o.Strays > maxStrays {
 			maxStrays = o.Strays
@@ -92,7 +102,7 @@ func c20CheckFault(t vh.Fataler, rec *vh.Rec, root string, c c20Case) {
 		// the file as the child saw it right after the call, before the fault was lifted
 		var gotDisk *pb.ClientConf
 		var raw []byte
-		diskForm := ""
+		diskForm, diskErr := "", ""
 		switch {
 		case o.Disk == "absent":
 			diskForm = "missing"
@@ -104,9 +114,15 @@ func c20CheckFault(t vh.Fataler, rec *vh.Rec, root string, c c20Case) {
 			if perr != nil && raw == nil {
 				t.Fatalf("harness problem: %v", perr)
 			}
-			if perr != nil || gotDisk == nil || proto.CheckInitialized(gotDisk) != nil {
+			// "parses" = what the client's own loader (proto.Unmarshal in readConfigs) accepts, which
+			// includes the required-field check
+			if perr == nil && gotDisk != nil {
+				perr = proto.CheckInitialized(gotDisk)
+			}
+			if perr != nil || gotDisk == nil {
 				gotDisk = nil
 				diskForm = "unparseable"
+				diskErr = fmt.Sprint(perr)
 			}
 		default:
 			t.Fatalf("harness problem: cannot observe the file after store %d: %s", i, o.Disk)
@@ -114,11 +130,38 @@ func c20CheckFault(t vh.Fataler, rec *vh.Rec, root string, c c20Case) {
 
 		if o.Err == "" {
 			// ---- the store reported success
-			if op.Fault != "" && op.Fault != "fsize" {
+			switch op.Fault {
+			case "marshal":
+				// The replacement cannot be serialised into a file the client can load again, so there is
+				// no parseable "new" file: whatever the call reports, the file must still parse and be
+				// the previous configuration.
+				classSet["unserialisable-accepted"] = true
+				if gotDisk == nil || !proto.Equal(gotDisk, disk) {
+					form := diskForm
+					if form == "" {
+						form = c20Form(raw, disk)
+					}
+					if v == nil {
+						v = &viol{"unserialisable-accepted:" + form, fmt.Sprintf("store %d (%v): a ClientConf that cannot be serialised (required field of dns_reg_conf missing) was accepted — the call reported success and the ClientConf file is now %s (%s) %s; it must fail and leave the previously stored configuration %s",
+							i, op, form, diskErr, c20Brief(gotDisk), c20Brief(disk))}
+					}
+					break
+				}
+				// reported success but left the file alone: nothing the property forbids; go on from
+				// whatever is in memory
+				classSet["unserialisable-accepted:file-untouched"] = true
+				mem = gotMem
+				continue
+			case "vanish":
+				// the old file was moved away and is what the child looked at: nothing can be judged
 				t.Fatalf("harness problem: fault %q did not make store %d (%v) fail", op.Fault, i, op)
-			}
-			if op.Fault == "fsize" {
+			case "occupied":
+				classSet["fault-not-fired:occupied(directory-replaced)"] = true
+			case "fsize":
 				classSet["fault-not-fired:fsize(limit-above-size)"] = true
+			}
+			if v != nil {
+				break
 			}
 			classSet["store-ok"] = true
 			want := c20Norm(c20Model(mem, i, op))
@@ -128,8 +171,8 @@ func c20CheckFault(t vh.Fataler, rec *vh.Rec, root string, c c20Case) {
 					form = c20Form(raw, want, disk)
 				}
 				if v == nil {
-					v = &viol{"success:" + form, fmt.Sprintf("store %d (%v) reported success but the ClientConf file (%s, %s) is not the stored configuration %s",
-						i, op, form, c20Brief(gotDisk), c20Brief(want))}
+					v = &viol{"success:" + form, fmt.Sprintf("store %d (%v) reported success but the ClientConf file (%s %s, %s) is not the stored configuration %s",
+						i, op, form, diskErr, c20Brief(gotDisk), c20Brief(want))}
 				}
 				break
 			}
@@ -141,13 +184,20 @@ func c20CheckFault(t vh.Fataler, rec *vh.Rec, root string, c c20Case) {
 		}
 
 		// ---- the store failed
+		faultName := op.Fault
 		if op.Fault == "" {
-			t.Fatalf("harness problem: store %d (%v) failed in a healthy directory: %s", i, op, o.Err)
+			// not a fault of ours: the file and the memory are judged like after any failed store (a
+			// violation there takes priority); if they are fine this is reported as harness trouble below
+			faultName = "none"
+			if spurious == "" {
+				spurious = fmt.Sprintf("store %d (%v) failed in a healthy directory: %s", i, op, o.Err)
+			}
+		} else {
+			fired++
+			classSet["fault-fired:"+op.Fault] = true
+			classSet["fault-fired:"+op.Fault+":"+op.Kind] = true
 		}
-		fired++
-		classSet["fault-fired:"+op.Fault] = true
-		classSet["fault-fired:"+op.Fault+":"+op.Kind] = true
-		if c20MultiMB(mem) || op.KB >= 1024 {
+		if op.Fault != "" && (c20MultiMB(mem) || op.KB >= 1024) {
 			classSet["fault-fired-multiMB"] = true
 		}
 		if o.Strays > 0 {
@@ -165,8 +215,8 @@ func c20CheckFault(t vh.Fataler, rec *vh.Rec, root string, c c20Case) {
 				form = c20Form(raw, disk, c20Norm(c20Model(mem, i, op)))
 			}
 			if v == nil {
-				v = &viol{"fault:" + op.Fault + ":" + form, fmt.Sprintf("store %d (%v) failed with %q and left the ClientConf file %s %s; the previously stored configuration is %s",
-					i, op, o.Err, form, c20Brief(gotDisk), c20Brief(disk))}
+				v = &viol{"fault:" + faultName + ":" + form, fmt.Sprintf("store %d (%v) failed with %q and left the ClientConf file %s (%s) %s; the previously stored configuration is %s",
+					i, op, o.Err, form, diskErr, c20Brief(gotDisk), c20Brief(disk))}
 			}
 		}
 		if v != nil {
@@ -194,11 +244,20 @@ func c20CheckFault(t vh.Fataler, rec *vh.Rec, root string, c c20Case) {
 	}
 
 	if v == nil {
-		// all faults lifted: the directory must hold exactly the last stored configuration
+		// All stores returned and all faults are lifted (the child reported every lift as clean, otherwise
+		// we stopped above at o.Harness): the file must parse and be the last stored configuration.
 		b, err := os.ReadFile(filepath.Join(res.dir, c20File))
 		got := &pb.ClientConf{}
-		if err != nil || proto.Unmarshal(b, got) != nil || !proto.Equal(got, disk) {
-			t.Fatalf("harness problem: after lifting all faults the ClientConf file (read error %v) is %s, expected %s", err, c20Brief(got), c20Brief(disk))
+		switch {
+		case err != nil && os.IsNotExist(err):
+			v = &viol{"final:missing", fmt.Sprintf("after the whole sequence the ClientConf file is gone (%v); last stored configuration %s", err, c20Brief(disk))}
+		case err != nil:
+			t.Fatalf("harness problem: cannot read the ClientConf file after the sequence: %v", err)
+		default:
+			if perr := proto.Unmarshal(b, got); perr != nil || !proto.Equal(got, disk) {
+				form := c20Form(b, disk)
+				v = &viol{"final:" + form, fmt.Sprintf("after the whole sequence the ClientConf file is %s (parse error %v) %s instead of the last stored configuration %s", form, perr, c20Brief(got), c20Brief(disk))}
+			}
 		}
 	}
 	strays, strayBytes, _ := c20Strays(res.dir)
@@ -214,6 +273,8 @@ func c20CheckFault(t vh.Fataler, rec *vh.Rec, root string, c c20Case) {
 	rec.Case(fired > 0, vh.Digest(c), c, classes...)
 	if v != nil {
 		rec.Violation(t, v.key, c, "%s; sequence=%v init=%dKiB", v.msg, c.Ops, c.InitKB)
+	} else if spurious != "" {
+		t.Fatalf("harness problem: %s (file and memory were left at the previous configuration)", spurious)
 	}
 }
 
